@@ -7,6 +7,7 @@ enumeration is resolved through every naming route, the generated argument parse
 applied with *every* ignore list over the supplied destinations, from two configuration states.
 """
 import io
+import os
 import json
 import itertools
 import contextlib
@@ -21,8 +22,12 @@ RULE = ("all schema trees in the bound x {default state, all-assigned state} x e
 ASSUMPTIONS = ["argparse is the command-line parser", "keys are identifiers that do not collide after the '.'/'_' to '-' mapping"]
 
 KEYS = ["a", "b_c", "port"]
-CMD_VALUE = {"Int": ("7", 7), "Str": ("hello", "hello"), "Float": ("2.5", 2.5)}
-ASSIGN = {"Int": 3, "Str": "s", "Float": 1.25, "Bool": None, "List": [2]}
+CMD_VALUE = {"Int": ("7", 7), "Str": ("hello", "hello"), "Float": ("2.5", 2.5), "Include": ("inc.cfg", "inc.cfg")}
+ASSIGN = {"Int": 3, "Str": "s", "Float": 1.25, "Bool": None, "List": [2], "Include": "inc2.cfg"}
+# schemas holding an include field (a persistent string-valued scalar like any other file name field)
+INCLUDE_SPECS = [[["a", "Include"]], [["a", "Int"], ["b_c", "Include"]], [["a", [["a", "Include"]]]],
+                 [["a", [["a", "Int"], ["b_c", "Include"]]], ["b_c", "Bool"]], [["a", [["a", [["a", "Include"]]], ["b_c", "Bool"]]]]]
+ENV_OPTS = [False, True, "C16PFX", None]
 
 
 def schema_specs(tier):
@@ -57,6 +62,10 @@ def schema_specs(tier):
 
 def build(spec, bool_flip=0, bottom_up=False):
     import cincoconfig as cc
+    if bottom_up == "explicit-env":
+        s = cc.Schema()
+        _fill(s, spec, [bool_flip], explicit=[0])
+        return s
     if bottom_up:
         return _bottom_up(spec, [bool_flip])
     s = cc.Schema()
@@ -81,11 +90,19 @@ def _bottom_up(spec, ctr):
     return s
 
 
-def _fill(s, spec, ctr):
+def _fill(s, spec, ctr, explicit=None):
     import cincoconfig as cc
     for key, kind in spec:
-        if isinstance(kind, list):
+        if isinstance(kind, list) and explicit is not None:
+            # the sub-schema is created by the user, with an environment option of its own, and mounted by attribute
+            sub = cc.Schema(env=ENV_OPTS[explicit[0] % len(ENV_OPTS)])
+            explicit[0] += 1
+            setattr(s, key, sub)
+            _fill(sub, kind, ctr, explicit)
+        elif isinstance(kind, list):
             _fill(getattr(s, key), kind, ctr)
+        elif kind == "Include":
+            setattr(s, key, cc.IncludeField())
         elif kind == "Int":
             setattr(s, key, cc.IntField(default=1))
         elif kind == "Str":
@@ -129,7 +146,7 @@ def bounds(tier):
 def jobs(tier):
     specs = schema_specs(tier)
     n = 64 if tier == "thorough" else 16
-    return [{"name": "schemas/%02d" % c, "specs": specs[c::n]} for c in range(n) if specs[c::n]]
+    return [{"name": "schemas/%02d" % c, "specs": specs[c::n]} for c in range(n) if specs[c::n]] + [{"name": "schemas/include", "specs": INCLUDE_SPECS}]
 
 
 def run_job(job, ctx):
@@ -144,6 +161,7 @@ def run_job(job, ctx):
         check_schema(ctx, spec, None)
         if any(isinstance(k, list) for _, k in spec):
             check_schema(ctx, spec, None, bottom_up=True)
+            check_schema(ctx, spec, None, bottom_up="explicit-env")
         if "Bool" in json.dumps(spec):
             check_schema(ctx, with_odd_keys(spec), None)
         check_growth(ctx, spec)
@@ -161,7 +179,11 @@ def with_odd_keys(spec):
 def check_schema(ctx, spec, only, bottom_up=False):
     import cincoconfig as cc
     ref_paths = paths(spec)
-    fpb = "C16|bottom-up|" if bottom_up else "C16|"
+    fpb = "C16|explicit-env|" if bottom_up == "explicit-env" else ("C16|bottom-up|" if bottom_up else "C16|")
+    for fname in ("inc.cfg", "inc2.cfg"):
+        if not os.path.exists(fname):
+            with open(fname, "w") as fh:
+                fh.write("{}")
     case0 = {"spec": spec, "job": "schema", "bottom_up": bottom_up}
 
     def bad(what, msg, only_=None):
